@@ -344,6 +344,12 @@ class Machine:
         how = "setitem"
         if not params:
             how = self.rng.choice(["setitem", "value", "attr"])
+        mine = [(k, v) for k, v in sorted(s.inputs.items(), key=repr) if k[0] == n and isinstance(v, int)]
+        if mine and self.rng.random() < self.cfg.get("p_same_input", 0.12):
+            # the value that is there already, assigned again (the identical object): an overwrite like any other
+            k, v = mine[self.rng.randrange(len(mine))]
+            if len(k[1]) == len(params):
+                return {"op": "set_value", "space": s.path(), "name": n, "args": list(k[1]), "value": v, "how": how, "same": True}
         return {"op": "set_value", "space": s.path(), "name": n, "args": args, "value": self.fresh.next(), "how": how}
 
     def g_clear(self):
